@@ -374,7 +374,8 @@ def replay(scn, labels, check=True, stop_on_violation=True):
            'diverged': None, 'steps': []}
     path = []
     for lab in labels:
-        if lab.startswith('T') and lab[1:].isdigit():
+        if lab.startswith('T') and lab[1:].isdigit() and not any(
+                x.label == lab for x in scn.externals()):
             pre = snap
             env.set_clock(int(lab[1:]))
             snap = _dump()
